@@ -267,4 +267,13 @@ def Series.run : Nat → Series → List Ep
     | (none, _) => []
     | (some e, s') => e :: Series.run n s'
 
+/-- run the iterator to exhaustion (at most `fuel` items) keeping only the count, the last item and whether
+    every item was later than the one before (for series of millions of items) -/
+def Series.runLast : Nat → Series → Nat → Option Ep → Bool → Nat × Option Ep × Bool
+  | 0, _, n, last, ord => (n, last, ord)
+  | f + 1, s, n, last, ord => match s.next with
+    | (none, _) => (n, last, ord)
+    | (some e, s') =>
+      Series.runLast f s' (n + 1) (some e) (ord && (match last with | none => true | some l => Dur.cmp l.dur e.dur == -1))
+
 end Hifi
